@@ -157,7 +157,7 @@ func TestVerifC05Seq(t *testing.T) {
 					select {
 					case s := <-ch:
 						res = c05ID(s)
-					case <-time.After(3 * time.Second):
+					case <-time.After(10 * time.Second):
 						blocked, dead = true, true
 						rq.close()
 					}
@@ -373,7 +373,7 @@ func c05Recv(ch chan c05TakeRes, d time.Duration) (c05TakeRes, bool) {
 func TestVerifC05Scenarios(t *testing.T) {
 	w := newVerifWriter(t, "c05_scen_out.jsonl")
 	defer w.close()
-	const wait = 3 * time.Second
+	const wait = 10 * time.Second
 	// P1: a push lands between the worker's failed popGlobal/trySteal and its park
 	{
 		o := c05ScenOut{Name: "P1 push between the failed probes and parkAndTake"}
@@ -520,6 +520,72 @@ func TestVerifC05Scenarios(t *testing.T) {
 			}
 		}
 		o.Detail = "parked_now=" + itoa(rq.parkedCount())
+		w.put(o)
+	}
+	// P7: concurrent steals that cross paths (A steals 0->1 while B steals 1->0, a third pair 1->2 / 2->1):
+	// the ordered double locking must not deadlock, and no ticket may be lost or duplicated
+	{
+		o := c05ScenOut{Name: "P7 crossing steals do not deadlock and conserve tickets"}
+		rq := newReadyQueue(3)
+		const n = 150
+		for i := 0; i < n; i++ {
+			rq.pushLocal(i%3, &c05Tok{id: i + 1})
+		}
+		var got [4][]int
+		var wg sync.WaitGroup
+		pairs := [][2]int{{0, 1}, {1, 0}, {1, 2}, {2, 1}}
+		for gi, pr := range pairs {
+			wg.Add(1)
+			go func(gi int, v, w int) {
+				defer wg.Done()
+				for k := 0; k < 20000; k++ {
+					if s := rq.locals[v].stealHalf(rq.locals[w]); s != nil {
+						got[gi] = append(got[gi], c05ID(s))
+						// give the ticket back to the victim so the game continues
+						if !rq.locals[v].pushBack(s) {
+							rq.push(s)
+						}
+					}
+					if k%64 == 0 {
+						runtime.Gosched()
+					}
+				}
+			}(gi, pr[0], pr[1])
+		}
+		done := make(chan struct{})
+		go func() { wg.Wait(); close(done) }()
+		finished := vdWait(done, 30*time.Second)
+		seen := map[int]int{}
+		total := 0
+		if finished {
+			for _, q := range rq.locals {
+				q.mu.Lock()
+				for i := 0; i < q.size; i++ {
+					seen[c05ID(q.buf[(q.head+i)%len(q.buf)])]++
+					total++
+				}
+				q.mu.Unlock()
+			}
+			rq.parkMu.Lock()
+			for i := 0; i < rq.global.size; i++ {
+				seen[c05ID(rq.global.buf[(rq.global.head+i)%len(rq.global.buf)])]++
+				total++
+			}
+			rq.parkMu.Unlock()
+		}
+		okAll := finished && total == n
+		for i := 1; i <= n && okAll; i++ {
+			if seen[i] != 1 {
+				okAll = false
+			}
+		}
+		o.OK = okAll
+		if !finished {
+			o.Why = "crossing stealHalf calls deadlocked (30 s)"
+		} else if !okAll {
+			o.Why = "tickets lost or duplicated by concurrent steals"
+		}
+		o.Detail = "tickets_left=" + itoa(total)
 		w.put(o)
 	}
 }
